@@ -1081,4 +1081,120 @@ theorem util_errorbars (v q mean : ℝ) :
     by simp [utilEbSem, HasSqrt.sqrt, Real.sqrt_nonneg], h1, h2, fun hq => ?_⟩
   rw [h1, (result_ci_ordered_symmetric mean (getSem v) q (sem_nonneg v).1 hq).2.2.2.1]
 
+/-! ## 12. (round 4) sessions: one `Result` queried repeatedly through every public route -/
+
+section sessions
+
+/-- the in-place write counts read off the current source are zero: no statement of the tests, of
+    `extract_variances`, of the error-bar helper, of any `Result` accessor, of `Result.__init__`, `to_dict`
+    or `result_from_dict` stores into an array that may alias the caller's data (evaluations, noise ceiling,
+    covariance input, the object's fields) — hence every route has write count 0 -/
+theorem input_write_leaves (r : Route) :
+    testInputWrites = 0 ∧ extractInputWrites = 0 ∧ errorbarInputWrites = 0 ∧ resultInputWrites = 0 ∧
+    writesOf r = 0 := by
+  refine ⟨rfl, rfl, rfl, rfl, ?_⟩
+  cases r <;> rfl
+
+/-- no value can survive a call outside the arguments: the anchored modules (and the modules they take
+    callees from) have no memoising decorator, no `global`, no module- or class-level state, no mutable
+    default, no store on a function object, and class `Result` stores / reads no attribute beyond its
+    documented fields -/
+theorem no_hidden_state_leaves :
+    moduleStateCells = 0 ∧ resultExtraAttrs = 0 ∧ stateCells = 0 :=
+  ⟨rfl, rfl, rfl⟩
+
+/-- as coded, a call returns the stand-alone value on the content it finds and leaves content and caches
+    exactly as they were — whatever the route, its arguments, and whatever is in the caches -/
+theorem call_stateless {α ρ : Type} [Add α] [One α] (pure : Call → Content α → ρ) (c : Call)
+    (s : SState α ρ) :
+    callResult pure c s = pure c s.content ∧ callEffect pure c s = s := by
+  have hw := (input_write_leaves c.route).2.2.2.2
+  have hc := no_hidden_state_leaves.2.2
+  unfold callResult callEffect resultW effW
+  rw [hw, hc]
+  simp
+
+/-- **sessions**: when one `Result` is queried by any list of calls (any routes, any test types, levels,
+    covariance kinds, any order, starting from any cache content), every call returns the value of the
+    stand-alone call on the *original* content, and content and caches are unchanged after every call.
+    Hence every statement of this file about a single call — classical t statistics of the fixed
+    evaluation, contrasts of the stored covariance, range / symmetry / unit diagonal / monotonicity of the
+    p-values, NaN-aware means, non-negative SEM, permutation equivariance — holds for every call of a
+    session, whatever was asked of the object before. -/
+theorem session_calls_independent {α ρ : Type} [Add α] [One α] (pure : Call → Content α → ρ)
+    (calls : List Call) (s : SState α ρ) :
+    runSession (callEffect pure) (callResult pure) calls s =
+      calls.map (fun c => (pure c s.content, s)) := by
+  induction calls with
+  | nil => rfl
+  | cons c cs ih =>
+    simp only [runSession, List.map_cons, (call_stateless pure c s).1, (call_stateless pure c s).2]
+    rw [ih]
+
+/-- the `k`-th call of a session in particular -/
+theorem session_call_at {α ρ : Type} [Add α] [One α] (pure : Call → Content α → ρ)
+    (calls : List Call) (s : SState α ρ) (k : ℕ) (hk : k < calls.length) :
+    (runSession (callEffect pure) (callResult pure) calls s)[k]? = some (pure calls[k] s.content, s) := by
+  rw [session_calls_independent]
+  simp [hk]
+
+/-- the order of the queries is irrelevant: a reordered session returns the same answer for the same call -/
+theorem session_order_irrelevant {α ρ : Type} [Add α] [One α] (pure : Call → Content α → ρ)
+    (calls calls' : List Call) (h : calls.Perm calls') (s : SState α ρ) :
+    (calls.zip ((runSession (callEffect pure) (callResult pure) calls s).map Prod.fst)).Perm
+      (calls'.zip ((runSession (callEffect pure) (callResult pure) calls' s).map Prod.fst)) := by
+  have hz : ∀ l : List Call, l.zip ((runSession (callEffect pure) (callResult pure) l s).map Prod.fst)
+      = l.map (fun c => (c, pure c s.content)) := by
+    intro l
+    rw [session_calls_independent, List.map_map]
+    induction l with
+    | nil => rfl
+    | cons a t ih => simp [List.zip_cons_cons, ih]
+  rw [hz, hz]
+  exact h.map _
+
+/-- a concrete instance tying the sessions to the statistics: whatever was asked before, every `get_sem`
+    of a session returns the square roots of the clamped stored model variances — non-negative, and
+    squaring to the variance where that is non-negative (`sem_nonneg`) -/
+theorem session_sem_nonneg (calls : List Call) (s : SState ℝ (List ℝ)) (k : ℕ) (hk : k < calls.length) :
+    let pure : Call → Content ℝ → List ℝ := fun _ ct => ct.vars.map getSem
+    ∃ st, (runSession (callEffect pure) (callResult pure) calls s)[k]? = some (s.content.vars.map getSem, st)
+      ∧ st.content = s.content ∧ ∀ x ∈ s.content.vars.map getSem, 0 ≤ x := by
+  intro pure
+  refine ⟨s, session_call_at pure calls s k hk, rfl, ?_⟩
+  intro x hx
+  obtain ⟨v, _, rfl⟩ := List.mem_map.mp hx
+  exact (sem_nonneg v).1
+
+/-- non-vacuity: a two-call session on a concrete content -/
+example :
+    (runSession (callEffect (fun c ct => (c.arg, ct.evals.length)))
+      (callResult (fun c ct => (c.arg, ct.evals.length)))
+      [⟨.testNoise, 1, 3⟩, ⟨.getMeans, 0, 3⟩]
+      (⟨⟨[some (2 : ℤ), none], [1], [some 0]⟩, []⟩ : SState ℤ (ℕ × ℕ))).map Prod.fst = [(1, 2), (0, 2)] := by
+  rw [session_calls_independent]; rfl
+
+/-- why the write counts matter (the hypothesis of `call_stateless` is not decoration): with a single
+    in-place statement on the path of the first call, the second call of the session sees other
+    evaluations than the ones the object was built with (the shape of an in-place centring of
+    `result.evaluations` by the bootstrap test against the ceiling) -/
+theorem inplace_write_breaks_later_call :
+    let pure : Call → Content ℤ → List (Option ℤ) := fun _ ct => ct.evals
+    let s : SState ℤ (List (Option ℤ)) := ⟨⟨[some 2, none, some 5], [1], [some 0]⟩, []⟩
+    (runSession (effW 1 0 pure) (resultW 0 pure) [⟨.testNoise, 1, 3⟩, ⟨.getMeans, 0, 3⟩] s).map Prod.fst
+      = [[some 2, none, some 5], [some 3, none, some 6]] := by
+  decide
+
+/-- why the state cells matter: with one memo cell and a key that is coarser than the argument (here: the
+    model count `3` for two different confidence levels `95`, `90`), the second call is answered with the
+    value of the first -/
+theorem coarse_memo_goes_stale :
+    let pure : Call → Content ℤ → ℕ := fun c _ => c.arg
+    let s : SState ℤ ℕ := ⟨⟨[some 2], [1], [some 0]⟩, []⟩
+    (runSession (effW 0 1 pure) (resultW 1 pure) [⟨.getCi, 95, 3⟩, ⟨.getCi, 90, 3⟩] s).map Prod.fst
+      = [95, 95] := by
+  decide
+
+end sessions
+
 end Rsa.Props.C06
